@@ -319,7 +319,22 @@ func runC19(t *Trace, r *Rng, tier string, _ []string) {
 		"fox <b>bold</b> &amp; fox's \"quoted\" fox", strings.Repeat("padding words here ", 30) + "fox at the end",
 		"fox\xff broken \xe6\x97 bytes fox", "FOX Fox fOx", "a b c d e f g fox h i j k", "新型交换机 已经 上市", "Search engines index documents",
 	}
-	for _, an := range []string{"standard", "simple", "en", "cjk", "web", "keyword", "expanding", "shrinking", "edge"} {
+	// generated documents over a small vocabulary (multi-byte words, HTML specials, a compound word): many matches,
+	// overlapping and nested term locations
+	docs = append(docs, "basketballs and ball games for foxes", "foxes fox basketballs")
+	hv := []string{"fox", "foxes", "quick", "café", "日本", "basketballs", "ball", "<b>", "&amp;", "\"q\"", "it's", "über", "fox-trot", "the", "a", "x"}
+	for i := 0; i < 30; i++ {
+		var sb strings.Builder
+		nw := 3 + r.Intn(40)
+		for k := 0; k < nw; k++ {
+			if k > 0 {
+				sb.WriteString([]string{" ", " ", ", ", ". ", "  "}[r.Intn(5)])
+			}
+			sb.WriteString(hv[r.Intn(len(hv))])
+		}
+		docs = append(docs, sb.String())
+	}
+	for _, an := range []string{"standard", "simple", "en", "cjk", "web", "keyword", "expanding", "shrinking", "edge", "compound"} {
 		m := bleve.NewIndexMapping()
 		// analyzers that change the text length before tokenising: term locations then need not lie inside the stored value
 		must(m.AddCustomCharFilter("expand", map[string]interface{}{"type": "regexp", "regexp": "o", "replace": "oooo"}))
@@ -328,6 +343,9 @@ func runC19(t *Trace, r *Rng, tier string, _ []string) {
 		must(m.AddCustomAnalyzer("shrinking", map[string]interface{}{"type": "custom", "tokenizer": "unicode", "char_filters": []interface{}{"shrink"}, "token_filters": []interface{}{"to_lower"}}))
 		must(m.AddCustomTokenFilter("edge3", map[string]interface{}{"type": "edge_ngram", "min": 1.0, "max": 3.0}))
 		must(m.AddCustomAnalyzer("edge", map[string]interface{}{"type": "custom", "tokenizer": "unicode", "token_filters": []interface{}{"to_lower", "edge3"}}))
+		must(m.AddCustomTokenMap("subwords", map[string]interface{}{"type": "custom", "tokens": []interface{}{"ball", "fox"}}))
+		must(m.AddCustomTokenFilter("comp", map[string]interface{}{"type": "dict_compound", "dict_token_map": "subwords", "min_word_size": 5.0, "min_subword_size": 2.0, "max_subword_size": 15.0}))
+		must(m.AddCustomAnalyzer("compound", map[string]interface{}{"type": "custom", "tokenizer": "unicode", "token_filters": []interface{}{"to_lower", "comp"}}))
 		dm := bleve.NewDocumentMapping()
 		fm := bleve.NewTextFieldMapping()
 		fm.Analyzer = an
@@ -339,7 +357,7 @@ func runC19(t *Trace, r *Rng, tier string, _ []string) {
 		for i, d := range docs {
 			_ = idx.Index(fmt.Sprintf("d%d", i), map[string]interface{}{"body": d})
 		}
-		for _, qs := range []string{"fox", "quick fox", "café", "日本", "bold fox", "padding end", "foooox", "dooooog over", "fo", "日本語のテキスト", "新型交换机", "sea eng", "search engines"} {
+		for _, qs := range []string{"basketballs ball", "ball basket", "foxes fox", "it's", "über café", "<b>", "q", "fox trot", "the a x", "fox", "quick fox", "café", "日本", "bold fox", "padding end", "foooox", "dooooog over", "fo", "日本語のテキスト", "新型交换机", "sea eng", "search engines"} {
 			for _, style := range []string{"html", "ansi"} {
 				for _, fsize := range []int{0} {
 					_ = fsize
@@ -349,6 +367,7 @@ func runC19(t *Trace, r *Rng, tier string, _ []string) {
 					req.IncludeLocations = true
 					req.Highlight = bleve.NewHighlightWithStyle(style)
 					req.Highlight.AddField("body")
+					var hlLines []string
 					res := runGuarded(limit, func() string {
 						sr, err := idx.Search(req)
 						if err != nil {
@@ -363,6 +382,17 @@ func runC19(t *Trace, r *Rng, tier string, _ []string) {
 							stored := docs[n]
 							if !utf8.ValidString(stored) {
 								continue // stored value comes back sanitised
+							}
+							// every fragment against the Lean predicate: a piece of the value, marks at term locations
+							var ls []*c19Loc
+							for _, locs := range h.Locations["body"] {
+								for _, l := range locs {
+									ls = append(ls, &c19Loc{int(l.Start), int(l.End), 0})
+								}
+							}
+							sort.Slice(ls, func(a, b int) bool { return ls[a].s < ls[b].s || (ls[a].s == ls[b].s && ls[a].e < ls[b].e) })
+							for _, frag := range h.Fragments["body"] {
+								hlLines = append(hlLines, fmt.Sprintf("hlcheck %s %s %s", hs(stored), c19LocsStr(ls), hs(frag)))
 							}
 							for _, frag := range h.Fragments["body"] {
 								plain, marks := stripMarkup(frag)
@@ -379,6 +409,10 @@ func runC19(t *Trace, r *Rng, tier string, _ []string) {
 						return "ok"
 					})
 					t.Emit("highlight/"+an+"/"+style, true, "echo ok", res)
+					for _, l := range hlLines {
+						t.Emit("highlight-model/end-to-end/"+an, true, l, "ok")
+					}
+					hlLines = nil
 				}
 			}
 		}
